@@ -237,6 +237,47 @@ def _big_worker(task):
     return rep
 
 
+HEADER_PATHS = tuple(f"kio.schema.request_header.v{v}.header:RequestHeader" for v in (0, 1, 2))
+
+
+def header_cases(path: str):
+    """Request headers as real clients send them: request_api_key over EVERY API key of the package (a randomly drawn int16
+    almost never names one), a few versions and client ids.  -> list of (kwargs dict)."""
+    from kio.schema.index import api_key_map
+
+    has_client = not path.startswith("kio.schema.request_header.v0.")
+    out = []
+    for key in sorted(api_key_map):
+        for ver in (0, 1, 3, 7):
+            for cid in ((None, "", "c", "client-\u00e9") if has_client else (None,)):
+                kw = {"request_api_key": key, "request_api_version": ver, "correlation_id": 0x01020304}
+                if has_client:
+                    kw["client_id"] = cid
+                out.append(kw)
+    return out
+
+
+def header_stage(only=None):
+    """-> (failures, cuts).  Every cut of every header of header_cases()."""
+    from .. import describe as D
+    from ..engine import Failure
+
+    fails, cuts = [], 0
+    for path in HEADER_PATHS:
+        cd = D.describe(D.resolve(path))
+        for kw in header_cases(path):
+            if only is not None and (path, kw) != only:
+                continue
+            b = K.encode(cd.cls, cd.cls(**kw))
+            for k in range(len(b)):
+                cuts += 1
+                res = cut_outcome(cd, b, k)
+                if res is not None:
+                    fails.append(Failure(f"header:{res[0]}", res[1], {"kind": "header", "class": path, "kwargs": kw}, len(b)))
+                    break
+    return fails, cuts
+
+
 def run(ctx: Ctx) -> Report:
     rep = run_tree_property(ctx, __name__, SPEC)
     from ..engine import pool_map
@@ -247,6 +288,10 @@ def run(ctx: Ctx) -> Report:
             rep.add_failure(f)
         for k, v in sub.extra.get("counters", {}).items():
             rep.extra.setdefault("counters", {})[k] = rep.extra.setdefault("counters", {}).get(k, 0) + v
+    hf, hcuts = header_stage()
+    for f in hf:
+        rep.add_failure(f)
+    rep.extra.setdefault("counters", {})["header_cuts"] = hcuts
     c = rep.extra.get("counters", {})
     rep.extra["instances"] = rep.evaluations
     skipped = int(c.get("unencodable", 0)) + int(c.get("skipped_too_long", 0))
@@ -255,12 +300,14 @@ def run(ctx: Ctx) -> Report:
 
         raise HarnessError(f"generator health: {skipped} of {rep.evaluations} instances could not be used "
                            f"(unencodable={c.get('unencodable', 0)}, too long={c.get('skipped_too_long', 0)}): inconclusive")
-    rep.evaluations = int(c.get("cuts", 0))
+    rep.evaluations = int(c.get("cuts", 0)) + int(c.get("header_cuts", 0))
     rep.nontrivial_count_override = int(c.get("distinct_inside_cuts", 0))
     return rep
 
 
 def replay(case):
+    if case.get("kind") == "header":
+        return [(f.signature, f.message) for f in header_stage((case["class"], case["kwargs"]))[0]]
     if case.get("kind") == "big":
         sub = _big_worker((case["class"], case["blob"], case["size"]))
         return [(f.signature, f.message) for f in sub.failures.values()]
